@@ -42,6 +42,27 @@ pub fn round_trips<K: Fam>(e: &Enr<K>, s: &Snap) -> Result<(), String> {
     same("Display", guarded(|| disp.parse::<Enr<K>>()).map_err(|p| format!("panic {p}"))?)?;
     let js = serde_json::to_string(e).map_err(|x| format!("serialize: {x}"))?;
     same("JSON", guarded(|| serde_json::from_str::<Enr<K>>(&js).map_err(|x| x.to_string())).map_err(|p| format!("panic {p}"))?)?;
+    // the Encodable impl as a whole: length() agrees with encode(), and a list of records encoded by
+    // alloy-rlp (which frames the list from length()) decodes back to the same records
+    let l = guarded(|| alloy_rlp::Encodable::length(e)).map_err(|p| format!("length() panicked: {p}"))?;
+    if l != bytes.len() {
+        return Err(format!("Encodable::length() = {l} but encode() produces {} bytes", bytes.len()));
+    }
+    let two = vec![e.clone(), e.clone()];
+    let list = guarded(|| alloy_rlp::encode(&two)).map_err(|p| format!("encoding a list of records panicked: {p}"))?;
+    let mut want_list = Vec::new();
+    rlp::enc_list_payload(&mut want_list, &[bytes.as_slice(), bytes.as_slice()].concat());
+    if list != want_list {
+        return Err("a list of two records encoded through alloy-rlp is not the RLP list of their encodings".into());
+    }
+    match guarded(|| Vec::<Enr<K>>::decode(&mut list.as_slice())).map_err(|p| format!("Vec::decode panicked: {p}"))? {
+        Ok(v) => {
+            if v.len() != 2 || v[0] != *e || v[1] != *e {
+                return Err("a list of two records does not decode back to the same records".into());
+            }
+        }
+        Err(x) => return Err(format!("a list of two records encoded through alloy-rlp does not decode back: {x:?}")),
+    }
     let val = serde_json::to_value(e).map_err(|x| format!("serialize: {x}"))?;
     same("JSON value", guarded(|| serde_json::from_value::<Enr<K>>(val).map_err(|x| x.to_string())).map_err(|p| format!("panic {p}"))?)?;
     Ok(())
@@ -100,7 +121,7 @@ impl Property for C04 {
         "C04"
     }
     fn rule(&self) -> String {
-        "cases: (a) byte inputs as for C02 (valid records and re-signed structural mutants), for every key type: whenever the library accepts an input, re-encoding the record reproduces the consumed bytes bit for bit (also in the regions C02 leaves open) and the record's fields equal the independent parse; (b) call histories as for C05 (all 22 mutators, typed / raw / reserved / custom keys and values, six key families): every record returned by the builder, an update or a decode is encoded to bytes, to_base64, Display, JSON string and JSON value, each of which must decode back to a record that is == the original and has identical seq / pairs / signature / public key / node id / encoding; to_base64 must equal 'enr:' + reference base64 of the encoding; the encoding must be accepted by the reference decoder with the same fields. Non-trivial: an accepted input, or a history record with a custom key, a list value, an empty value, a boundary sequence number or >= 2 updates. Distinct by hash of the case.".into()
+        "cases: (a) byte inputs as for C02 (valid records and re-signed structural mutants), for every key type: whenever the library accepts an input, re-encoding the record reproduces the consumed bytes bit for bit (also in the regions C02 leaves open) and the record's fields equal the independent parse; (b) call histories as for C05 (all 22 mutators, typed / raw / reserved / custom keys and values, six key families): every record returned by the builder, an update or a decode is encoded to bytes, to_base64, Display, JSON string and JSON value, plus an alloy-rlp-encoded list of two copies; Encodable::length() must equal the encoding length; each form must decode back to a record that is == the original and has identical seq / pairs / signature / public key / node id / encoding; to_base64 must equal 'enr:' + reference base64 of the encoding; the encoding must be accepted by the reference decoder with the same fields. Non-trivial: an accepted input, or a history record with a custom key, a list value, an empty value, a boundary sequence number or >= 2 updates. Distinct by hash of the case.".into()
     }
     fn assumptions(&self) -> Vec<String> {
         vec!["independent parse = reference decoder of C02".into()]
